@@ -749,6 +749,14 @@ func (env *SpecEnv) call(x *CallE) *Val {
 		vc.S.DeclareRaw("fn:closure-tag", "(declare-fun closure-tag (Int) Int)")
 		return boolVal(eq("(closure-tag "+vc.term(env.eval(x.Args[0]))+")", fmt.Sprint(funcTag(env.pkgPath()+"."+sl.V))))
 	case "ifaceval":
+		// ifaceval(x) or ifaceval(x, *T): the dynamic value of an interface, optionally typed as T
+		if len(x.Args) == 2 {
+			t, err := vc.P.ResolveType(env.pkgPath(), x.Args[1].String())
+			if err != nil {
+				env.fail("%v", err)
+			}
+			return &Val{T: "(if-val " + vc.term(env.eval(x.Args[0])) + ")", Typ: t}
+		}
 		argn(1)
 		return intVal("(if-val " + vc.term(env.eval(x.Args[0])) + ")")
 	case "arrstr":
